@@ -8,6 +8,9 @@ import CCV.Model.Ops
   (`get_shape`, `get_dimensions`, `get_scalar_type`) and calls the evaluator-shaped function of
   `CCV.Ops` (the model compared with `SimpleEvaluator` in C10).
 
+  Compound values (tuples, named tuples, vectors) are handled as the evaluator does: constructors wrap
+  the dependency values, accessors index `to_vector()`, Reshape = `flatten_value` + `unflatten_value`.
+
   Values are `EV`: the flat list of stored residues of a scalar / array (row-major, what
   `to_flattened_array_u128` returns masked to the element width), or a vector of values.
   `hasType t v` is `Value::check_type` at the level of residues: `prod shape` entries, each below
@@ -72,9 +75,103 @@ def rowsOf : List EV → Option (List (List Nat))
 
 def isFlat (t : Ty) : Bool := isArr t || isSc t
 
+mutual
+/-- `flatten_value` (simple_evaluator.rs:39): the scalar / array leaves, left to right -/
+def flattenEV : EV → List EV
+  | .arr xs => [.arr xs]
+  | .vec vs => flattenEVL vs
+def flattenEVL : List EV → List EV
+  | [] => []
+  | v :: vs => flattenEV v ++ flattenEVL vs
+end
+
+/-- `for _ in 0..len { result.push(f(…)) }` threading the rest of the flattened value -/
+def repM (f : List EV → Option (EV × List EV)) : Nat → List EV → Option (List EV × List EV)
+  | 0, xs => some ([], xs)
+  | n + 1, xs =>
+    match f xs with
+    | none => none
+    | some (v, r) =>
+      match repM f n r with
+      | none => none
+      | some (vs, r') => some (v :: vs, r')
+
+mutual
+/-- `unflatten_value(flattened, position, t)` (simple_evaluator.rs:53): the position counter is
+    modelled by the list of leaves not yet consumed; `none` = the Rust index `flattened[position]`
+    is out of bounds (panic). -/
+def unflat : Ty → List EV → Option (EV × List EV)
+  | .scalar _, xs =>
+    match xs with
+    | x :: r => some (x, r)
+    | [] => none
+  | .array _ _, xs =>
+    match xs with
+    | x :: r => some (x, r)
+    | [] => none
+  | .vector n t, xs =>
+    match repM (unflat t) n xs with
+    | some (vs, r) => some (.vec vs, r)
+    | none => none
+  | .tuple ts, xs =>
+    match unflatL ts xs with
+    | some (vs, r) => some (.vec vs, r)
+    | none => none
+  | .named fs, xs =>
+    match unflatN fs xs with
+    | some (vs, r) => some (.vec vs, r)
+    | none => none
+def unflatL : List Ty → List EV → Option (List EV × List EV)
+  | [], xs => some ([], xs)
+  | t :: ts, xs =>
+    match unflat t xs with
+    | none => none
+    | some (v, r) =>
+      match unflatL ts r with
+      | none => none
+      | some (vs, r') => some (v :: vs, r')
+def unflatN : List (String × Ty) → List EV → Option (List EV × List EV)
+  | [], xs => some ([], xs)
+  | (_, t) :: fs, xs =>
+    match unflat t xs with
+    | none => none
+    | some (v, r) =>
+      match unflatN fs r with
+      | none => none
+      | some (vs, r') => some (v :: vs, r')
+end
+
+/-- position of the first field called `name` (the loop of `Operation::NamedTupleGet`) -/
+def fieldIdx (name : String) : List (String × Ty) → Option Nat
+  | [] => none
+  | (n, _) :: fs =>
+    if n = name then some 0
+    else
+      match fieldIdx name fs with
+      | some k => some (k + 1)
+      | none => none
+
+/-- `value.to_vector()` of every dependency (Zip) -/
+def colsOf : List EV → Option (List (List EV))
+  | [] => some []
+  | .vec cs :: vs =>
+    match colsOf vs with
+    | some r => some (cs :: r)
+    | none => none
+  | _ :: _ => none
+
+/-- the loop of `Operation::Zip`: rows `index = 0, 1, …` until some column is exhausted (with no
+    column at all the Rust loop does not terminate; `process_node` demands at least two). -/
+def zipRows (cols : List (List EV)) : List EV :=
+  match cols with
+  | [] => []
+  | c :: cs =>
+    let n := cs.foldl (fun m c' => if c'.length ≤ m then c'.length else m) c.length
+    (List.range n).map fun i => .vec (cols.map fun col => col.getD i (.arr []))
+
 /-- `evaluate_node` for the covered operations: `tys` are the types of the dependencies, `vs` their
-    values.  Operations outside the covered set (and Reshape between compound types) return an
-    error tagged `evalOp:`. -/
+    values.  Operations outside the covered set return an error tagged `evalOp:`; errors tagged
+    `panic:` are Rust panics (unreachable on accepted nodes, see `C09Values`). -/
 def evalOp (op : Op) (tys : List Ty) (vs : List EV) : Except String EV :=
   match infer op tys with
   | .error e => .error e
@@ -105,9 +202,12 @@ def evalOp (op : Op) (tys : List Ty) (vs : List EV) : Except String EV :=
     | .get idx => un (fun t1 xs => .ok (.arr (Ops.get (dimsE t1) xs idx))) tys vs
     | .getSlice sl => un (fun t1 xs => okArr (Ops.getSlice (dimsE t1) xs (sl.map toSE) (dimsE t))) tys vs
     | .reshape nt =>
-      un (fun t1 xs =>
-        if isFlat nt = true ∧ isFlat t1 = true then .ok (.arr xs)
-        else .error "evalOp: Reshape between compound types is not covered") tys vs
+      match vs with
+      | [v] =>
+        match unflat nt (flattenEV v) with
+        | some (r, _) => .ok r
+        | none => .error "panic: index out of bounds (unflatten_value)"
+      | _ => .error "evalOp: wrong number or kind of dependency values"
     | .nop =>
       match vs with
       | [v] => .ok v
@@ -132,6 +232,45 @@ def evalOp (op : Op) (tys : List Ty) (vs : List EV) : Except String EV :=
       | _ => .error "evalOp: wrong number or kind of dependency values"
     | .gather axis => bin (fun t1 xs _ idx => okArr (Ops.gather (dimsE t1) xs idx axis)) tys vs
     | .inversePermutation => un (fun _ xs => okArr (Ops.inversePermutation xs)) tys vs
+    | .applyPermutation inv =>
+      bin (fun t1 xs _ perm => okArr (Ops.applyPermutation inv (dimsE t1) xs perm)) tys vs
+    | .createTuple => .ok (.vec vs)
+    | .createNamedTuple _ => .ok (.vec vs)
+    | .createVector _ => .ok (.vec vs)
+    | .tupleGet i =>
+      match vs with
+      | [.vec cs] =>
+        match cs[i]? with
+        | some c => .ok c
+        | none => .error "panic: index out of bounds (TupleGet)"
+      | _ => .error "evalOp: wrong number or kind of dependency values"
+    | .namedTupleGet name =>
+      match tys, vs with
+      | [.named fs], [.vec cs] =>
+        match fieldIdx name fs with
+        | none => .error "panic: unwrap of None (NamedTupleGet)"
+        | some k =>
+          match cs[k]? with
+          | some c => .ok c
+          | none => .error "panic: index out of bounds (NamedTupleGet)"
+      | _, _ => .error "evalOp: wrong number or kind of dependency values"
+    | .vectorGet =>
+      match tys, vs with
+      | [.vector n _, _], [.vec cs, .arr [i]] =>
+        if n ≤ i then .error "Index out of range"
+        else
+          match cs[i]? with
+          | some c => .ok c
+          | none => .error "panic: index out of bounds (VectorGet)"
+      | _, _ => .error "evalOp: wrong number or kind of dependency values"
+    | .zip =>
+      match colsOf vs with
+      | some cols => .ok (.vec (zipRows cols))
+      | none => .error "evalOp: wrong number or kind of dependency values"
+    | .repeat_ n =>
+      match vs with
+      | [v] => .ok (.vec (List.replicate n v))
+      | _ => .error "evalOp: wrong number or kind of dependency values"
     | _ => .error "evalOp: operation not covered"
 
 /-! ### `Value::check_type` on residues -/
